@@ -269,6 +269,41 @@ def rule_claim_order(ctx: RuleContext, p: Program, rid: str) -> None:
               'the earlier one claims it as trailing)', g.where, note='reversed(self.items)')
 
 
+def rule_claim_walk(ctx: RuleContext, p: Program, rid: str) -> None:
+    ctx.rule(rid, '_claim_comment looks at exactly: placeholders, one Newline, placeholders, one BlockComment, starting next to the '
+                  'model\'s edge token (no blank line, same indentation class); anything else yields None; _find_outer stops at the '
+                  'first claimed comment or non-blank token and at the model limit')
+    f = p.func('models.internal.surrounding_comments', '_claim_comment')
+    src = [norm(s) for s in stmts_no_doc(f.node.body)]
+    need = ['newline = _take_ignored(first, succ, ignored)', 'comment = _take_ignored(succ(newline), succ, ignored)']
+    have = [x for x in need if x in src]
+    tests = [norm(i.test) for i in walk_no_nested(f.node) if isinstance(i, ast.If)]
+    ok = have == need and 'not isinstance(newline, Newline)' in tests and 'not isinstance(comment, BlockComment)' in tests \
+        and src.index(need[0]) < src.index(need[1])
+    ctx.check(ok, rid, 'models.internal.surrounding_comments:_claim_comment', f'{have} {tests[:5]}',
+              '_claim_comment does not walk placeholders, exactly one Newline, placeholders, exactly one BlockComment', f.where,
+              note='placeholders, Newline, placeholders, BlockComment')
+    cl = p.cls('_CommentClaimer', 'models.internal.interleaving_comments')
+    fo = p.method(cl, '_find_outer', inherited=False)
+    lp = [l for l in walk_no_nested(fo.node) if isinstance(l, ast.While)]
+    ok2 = False
+    if len(lp) == 1:
+        t = norm(lp[0].test)
+        chain = [i for i in lp[0].body if isinstance(i, ast.If)]
+        ok2 = 'prev is not limit' in t and 'token is not None' in t and len(chain) == 1
+        if ok2:
+            c = chain[0]
+            t1 = norm(c.test)
+            ok2 = 'isinstance(token, (Newline, Whitespace))' in t1 and 'not token.raw_text' in t1 and [norm(x) for x in c.body] == ['pass']
+            c2 = c.orelse[0] if len(c.orelse) == 1 and isinstance(c.orelse[0], ast.If) else None
+            ok2 = ok2 and c2 is not None and norm(c2.test) == 'isinstance(token, BlockComment)' and \
+                any(isinstance(i, ast.If) and norm(i.test) == 'token.claimed' and [norm(x) for x in i.body] == ['break'] for i in c2.body) \
+                and [norm(x) for x in c2.orelse] == ['break']
+    ctx.check(ok2, rid, 'models.internal.interleaving_comments:_CommentClaimer._find_outer', 'skip blanks; stop at claimed comment / other token / limit',
+              '_find_outer does not skip only blanks and zero-width tokens, yield unclaimed comments, and stop at the first claimed comment, other token or the model limit',
+              fo.where)
+
+
 def run(ctx: RuleContext, p: Program) -> None:
     tcs = build_tree_classes(p)
     ctx.try_rule(rule_claim_guard, p, 'CLAIM-GUARD')
@@ -277,6 +312,9 @@ def run(ctx: RuleContext, p: Program) -> None:
     ctx.try_rule(gen.rule_cover_claim, p, tcs, 'COVER-CLAIM')
     ctx.require_min('COVER-CLAIM', 34)
     ctx.try_rule(rule_claim_order, p, 'CLAIM-ORDER')
+    from .c04 import rule_take_ignored
+    ctx.try_rule(rule_take_ignored, p, 'TAKE-IGNORED')
+    ctx.try_rule(rule_claim_walk, p, 'CLAIM-WALK')
     ctx.not_decided += ['attribution rules for each layout (blank lines, indentation classes)', 'idempotence and '
                         'claim/unclaim restoration as runtime facts', 'that default parsing leaves no comment unowned']
     ctx.assumptions += ['a comment is owned iff it is stored in a _leading/_trailing slot or in Repeated.items']
